@@ -25,13 +25,14 @@ DoReply(i) == CanPush /\ CanReply(st, i) /\ st' = Reply(st, i)
 DoStray(i) == Faults /\ CanPush /\ CanStray(st, i) /\ st' = Stray(st, i)
 DoDup(i)   == Faults /\ CanPush /\ CanDup(st, i) /\ st' = Dup(st, i)
 DoGarbage  == Faults /\ CanPush /\ st' = Garbage(st)
+DoGlued(i) == Faults /\ CanPush /\ CanReply(st, i) /\ st' = Glued(st, i)
 DoBadBody(i) == Faults /\ CanPush /\ CanReply(st, i) /\ st' = BadBody(st, i)
 DoClose    == Faults /\ ~st.closed /\ st' = Close(st)
 SetMode(m) == m \in Modes /\ m # st.sendMode /\ st' = [st EXCEPT !.sendMode = m]
 
 Next == \/ \E t \in Id : StepFut(t) \/ Drop(t)
         \/ StepCaller \/ Start(TRUE) \/ Start(FALSE)
-        \/ \E i \in Id : DoReply(i) \/ DoDup(i) \/ DoBadBody(i)
+        \/ \E i \in Id : DoReply(i) \/ DoDup(i) \/ DoBadBody(i) \/ DoGlued(i)
         \/ \E i \in 1..(N+1) : DoStray(i)
         \/ DoGarbage \/ DoClose \/ DropC
         \/ \E m \in {"free", "before", "after"} : SetMode(m)
